@@ -18,6 +18,7 @@ var (
 	errNilHeader         = errors.New("nil header")
 	errHeaderTooShort    = errors.New("header too short")
 	errExtHeaderTooShort = errors.New("extension header too short")
+	errInvalidOptions    = errors.New("invalid options length")
 	errInvalidConnType   = errors.New("invalid conn type")
 	errNotImplemented    = errors.New("not implemented on " + runtime.GOOS + "/" + runtime.GOARCH)
 
